@@ -66,16 +66,50 @@ def cname(t):
     return f"{c.__module__.split('.')[-1]}.{c.__name__}"
 
 
+S2_KINDS = ("coerced-result-fails-own-check", "contract:result_passes_own_check",
+            "schema-level:coerced-data-rejected-by-dtype-check")
+F2_KINDS = ("failure-cases-differ-from-unconvertible-elements",
+            "parser-output-rows-differ-from-unconvertible-rows",
+            "schema-level:failure-cases-differ-from-ParserError")
+
+
 def mech(kind, w):
+    """Mechanism classifier: names the call site from the witness."""
     cls = w.get("class", "")
-    if cls.endswith(".ArrowDictionary") and kind in (
-            "coerced-result-fails-own-check", "contract:result_passes_own_check",
-            "schema-level:coerced-data-rejected-by-dtype-check"):
+    short = cls.split(".")[-1]
+    cont = w.get("container") or (w.get("context") or {}).get("container") or {}
+    in_dtype = str(cont.get("dtype", ""))
+    empty = cont.get("values") == [] and cont.get("values2", []) == []
+    exc = w.get("exc", "")
+    if short == "ArrowDictionary" and kind in S2_KINDS:
         return "arrow-dictionary-coerce-result-fails-own-check"
-    return MECH_TABLE.get((kind, cls)) or MECH_TABLE.get((kind, cls.split(".")[-1]))
-
-
-MECH_TABLE = {}
+    if cls.startswith("pandas_engine.Python"):
+        if kind in S2_KINDS and empty:
+            return "python-generic-coerce-of-empty-container-keeps-dtype"
+        if kind == "failure-cases-differ-from-unconvertible-elements" and \
+                not w.get("reported") and w.get("expected"):
+            return "python-generic-failure-cases-report-coerced-na"
+    if cls.startswith("polars_engine."):
+        if in_dtype.startswith("Struct(") and not cls.endswith((".Struct", ".Object")) \
+                and kind in S2_KINDS + F2_KINDS:
+            return "polars-struct-input-cast-applies-to-fields"
+        if short == "Category" and kind in S2_KINDS:
+            return "polars-category-coerced-result-fails-own-check"
+        if short == "Category" and kind == "try_coerce-raised-non-ParserError" and \
+                "unsupported operand type(s) for &: 'LazyFrame'" in exc:
+            return "polars-category-try_coerce-raises-typeerror"
+        if kind == "failure-cases-include-null-input":
+            return "polars-failure-cases-include-null-inputs"
+    if kind == "try_coerce-raised-non-ParserError":
+        where = w.get("where", "")
+        if "type of data_container <class 'pandas.core.indexes." in exc and \
+                where.endswith("numpy_pandas_coerce_failure_cases"):
+            return "coerce-failure-cases-index-subclass-not-understood"
+        if "does not support reduction 'all'" in exc and where.endswith("postprocess_field"):
+            return "coerce-failure-cases-categorical-input-reduction"
+        if exc.startswith("ArrowNotImplementedError") and where.endswith("postprocess_table"):
+            return "coerce-failure-cases-frame-with-arrow-columns"
+    return None
 
 
 def viol(run, kind, w):
@@ -151,12 +185,29 @@ def _coerce_element(t, v):
         return pd.NA
 
 
-def fc_values(fc):
+def _num_token(r):
+    """frame-level reports upcast ints beside NaN to float: compare by value."""
+    if r.startswith("int:"):
+        try:
+            return f"num:{float(int(r[4:]))!r}"
+        except OverflowError:
+            return r
+    if r.startswith("float:"):
+        return "num:" + r[6:]
+    return r
+
+
+def fc_values(fc, frame=False):
     """failure_cases -> (list of value reprs, list of index labels or None)."""
     if fc is None:
         return [], []
     if isinstance(fc, pd.DataFrame):
-        vals = [G.vrepr(v) for v in fc["failure_case"].tolist()]
+        raw = fc["failure_case"].tolist()
+        if frame and any(isinstance(v, dict) for v in raw):
+            # frame-level report: one dict {column: cell} per row
+            return [G.vrepr(x) for v in raw
+                    for x in (v.values() if isinstance(v, dict) else [v])], None
+        vals = [G.vrepr(v) for v in raw]
         idx = [G.vrepr(i) for i in fc["index"].tolist()] if "index" in fc else None
         return vals, idx
     if isinstance(fc, pd.Series):
@@ -192,6 +243,22 @@ def pandas_case(run, rec, label, t, rng):
             desc["shape"] = "series"
     eng = "numpy" if type(t).__module__.endswith("numpy_engine") else "pandas"
     cn = cname(t)
+    from pandera.engines import pandas_engine as _pe
+    if type(t) not in _pe.Engine._registered_dtypes:
+        # Bytes / numpy String / DateTime64: registered with the numpy engine
+        # only; the property quantifies over the pandas and polars engines.
+        # They are still driven (contracts count them) but not judged.
+        run.count(f"undecided:numpy-only-class:{cn}")
+        K.REC.enabled = False
+        try:
+            with warnings.catch_warnings():
+                warnings.simplefilter("ignore")
+                safe(t.try_coerce, c)
+        finally:
+            K.REC.enabled = True
+        K.REC.calls[("numpy", cn)] += 1
+        run.case([label, desc], False)
+        return
     base = {"class": cn, "dtype": label, "container": desc}
     rec.context = {"dtype": label, "container": desc}
     judged = 0
@@ -269,9 +336,13 @@ def pandas_success(run, eng, t, kind, extra, c, out, base):
     for (col, cin), (_, cout) in zip(columns_of(c), columns_of(out)):
         vin, _ = elements(cin)
         vout, _ = elements(cout)
+        all_exact = kind is not None and all(
+            G.is_null(v) or G.exact(kind, extra, v)[0] for v in vin)
         for i, v in enumerate(vin):
             if G.is_null(v):
-                if G.can_hold_null(t) and kind is not None and kind != "object":
+                if not all_exact:
+                    run.count("undecided:null-beside-inexact-elements")
+                elif G.can_hold_null(t) and kind != "object":
                     run.count(f"{eng}:S3_null_elements")
                     if not G.is_null(vout[i]):
                         viol(run, "null-not-preserved",
@@ -294,7 +365,7 @@ def pandas_success(run, eng, t, kind, extra, c, out, base):
                           expected=G.vrepr(want), got=G.vrepr(vout[i]),
                           output=K._brief(out)))
                 continue
-            okv, cv = safe(t.coerce_value, v)
+            okv, cv = (False, None) if kind == "object" else safe(t.coerce_value, v)
             if okv and not G.is_null(cv):
                 run.count(f"{eng}:S3_vs_coerce_value")
                 if not G.values_equal(cv, want):
@@ -346,10 +417,14 @@ def pandas_failure(run, eng, t, c, err, base):
     if isinstance(t, pe.PydanticModel):
         run.count("undecided:pydantic-row-failure-cases")
         return 0
+    if isinstance(c, np.ndarray) and c.dtype == object:
+        run.count("undecided:object-ndarray-is-reboxed-by-pandas")
+        return 0
     fc = err.failure_cases
-    got_vals, got_idx = fc_values(fc)
+    got_vals, got_idx = fc_values(fc, frame=isinstance(c, pd.DataFrame))
     exp_vals, exp_idx, undecided = [], [], False
-    nullable = G.can_hold_null(t)
+    # in a frame-level report a null cell cannot be told from a passing cell
+    nullable = G.can_hold_null(t) or isinstance(c, pd.DataFrame)
     for col, cin in columns_of(c):
         pos, py = individual_failures(t, cin)
         if pos is None:
@@ -370,6 +445,9 @@ def pandas_failure(run, eng, t, c, err, base):
             run.count("undecided:null-listed-as-failure-case-of-nullable-type")
         got_vals = [got_vals[j] for j in keep]
         got_idx = [got_idx[j] for j in keep] if got_idx is not None else None
+    if isinstance(c, pd.DataFrame):
+        got_vals = [_num_token(v) for v in got_vals]
+        exp_vals = [_num_token(v) for v in exp_vals]
     run.count(f"{eng}:F2_failure_cases")
     if not exp_vals:
         run.count(f"{eng}:F2_container_failed_all_elements_convertible")
@@ -517,7 +595,12 @@ def polars_case(run, rec, label, t, rng):
             viol(run, "coerced-result-fails-own-check", dict(base, output=K._brief(out)))
         for col in cols:
             vin, vout = df[col].to_list(), out[col].to_list()
+            all_exact = kind is not None and all(
+                v is None or G.exact(kind, extra, v)[0] for v in vin)
             for i, v in enumerate(vin):
+                if v is None and not all_exact:
+                    run.count("undecided:null-beside-inexact-elements")
+                    continue
                 if v is None:
                     run.count("polars:S3_null_elements")
                     if vout[i] is not None:
@@ -540,6 +623,8 @@ def polars_case(run, rec, label, t, rng):
         if not ok2:
             viol(run, "recoercing-coerced-result-fails",
                  dict(base, output=K._brief(out), exc=exc_s(out2)))
+        elif any(str(d) == "Object" for d in out.schema.values()):
+            run.count("undecided:polars-object-columns-not-comparable")
         elif dict(out2.schema) != dict(out.schema) or not out2.equals(out, null_equal=True):
             viol(run, "not-idempotent", dict(base, output=K._brief(out), again=K._brief(out2)))
     else:
@@ -570,7 +655,8 @@ def polars_failure(run, t, df, key, cols, err, base):
     run.count("polars:F2_failure_cases")
     if not bad_rows:
         run.count("polars:F2_container_failed_all_rows_convertible")
-    exp = Counter(tuple(G.vrepr(df[c][i]) for c in cols) for i in bad_rows)
+    lists = {c: df[c].to_list() for c in cols}
+    exp = Counter(tuple(G.vrepr(lists[c][i]) for c in cols) for i in bad_rows)
     if fc is None:
         got = Counter()
     else:
@@ -579,7 +665,7 @@ def polars_failure(run, t, df, key, cols, err, base):
     if got != exp:
         extra_rows = got - exp
         only_nulls = bool(extra_rows) and not (exp - got) and all(
-            all(v == "<null>" for v in row) for row in extra_rows)
+            any(v == "<null>" for v in row) for row in extra_rows)
         viol(run, "failure-cases-include-null-input" if only_nulls else
              "failure-cases-differ-from-unconvertible-elements",
              dict(base, reported=sorted(map(list, got.elements())),
@@ -591,10 +677,14 @@ def polars_failure(run, t, df, key, cols, err, base):
             run.count("polars:F2_parser_output_rows")
             rows = [i for i, v in enumerate(pdf[CHECK_OUTPUT_KEY].to_list()) if not v]
             null_rows = {i for i in range(df.height)
-                         if all(df[c][i] is None for c in cols)}
-            if set(rows) - null_rows != set(bad_rows) - null_rows:
+                         if any(lists[c][i] is None for c in cols)}
+            extra, missing = set(rows) - set(bad_rows), set(bad_rows) - set(rows)
+            if missing or (extra - null_rows):
                 viol(run, "parser-output-rows-differ-from-unconvertible-rows",
                      dict(base, reported=rows, expected=bad_rows))
+            elif extra:
+                viol(run, "failure-cases-include-null-input",
+                     dict(base, reported_rows=rows, expected_rows=bad_rows))
     return 1
 
 
